@@ -15,7 +15,8 @@ import vlib
 from vlib import enc_str as E, enc_list, dec_list
 from props.c04 import t_cond, t_prim, SAFE_VALUES, split_result
 
-THEOREMS = ["C05_tables", "C05_fn_end", "C05_sim_partial", "C05_F6_refuted_return", "C05_F6_refuted_recursion"]
+THEOREMS = ["C05_tables", "C05_fn_end", "C05_sim", "C05_sites_unique", "C05_sim_ordered", "C05_F6_refuted_return",
+            "C05_F6_refuted_recursion"]
 
 
 # ---- trees -> prefix notation ---------------------------------------------------------------------
@@ -468,9 +469,9 @@ def run(ck):
                     if f6["witness"] is None or len(script_lines) < len(f6["witness"]["script"]):
                         f6["witness"] = {"script": script_lines, "init": init, "spec": spec, "implementation": io}
             else:
-                cls = "in domain, proved part (calls follow the definition order)" if ordered else \
+                cls = "in domain of C05_sim (calls follow the definition order)" if ordered else \
                       "in domain, calls in condition position (correspondence only)" if condcalls else \
-                      "in domain, correspondence only (call-graph cycle)"
+                      "in domain of C05_sim (call-graph cycle: recursion)"
                 nontriv.add((text, tuple(init)))
                 if spec != model:
                     bad = "extracted model and extracted spec (prog_run) disagree outside KnownF6"
@@ -486,7 +487,7 @@ def run(ck):
                 if len(ck.violations) < 5:
                     ck.violation({"kind": bad, "case_kind": kind, "script": script_lines, "initial_variables": init,
                                   "known_f6": kf6, "spec(prog_run)": spec, "model(flat machine)": model, "implementation": io_full,
-                                  "theorems": ["C05_sim_partial"], "seed": ck.seed,
+                                  "theorems": ["C05_sim"], "seed": ck.seed,
                                   "replay_cmd": "printf '%s\\n' | .cache/cargo-target/release/c05" % impl_lines[pos].replace("\t", "\\t")})
             elif len(samples) < 3 and kind == "random" and cls and cls.startswith("in domain") and acc["call"] >= 3 and acc["return"] >= 2:
                 samples.append({"script": script_lines, "init": init})
